@@ -96,7 +96,9 @@ impl<T: BitRead> PackedRead for T {
             let offset_bits = range.leading_zeros() as usize;
             let mut bytes = [0u8; std::mem::size_of::<u64>()];
             self.read_bits_with_offset(&mut bytes, offset_bits)?;
-            Ok(lower + u64::from_be_bytes(bytes))
+            lower
+                .checked_add(u64::from_be_bytes(bytes))
+                .ok_or_else(|| ErrorKind::ValueExceedsMaxInt.into())
         } else {
             let mut bytes = [0u8; std::mem::size_of::<u64>()];
             let length = self.read_length_determinant(None, None)? as usize;
@@ -423,6 +425,11 @@ impl<T: BitWrite> PackedWrite for T {
         };
 
         if let Some((lower, upper)) = range {
+            if value < lower || value > upper {
+                return Err(
+                    ErrorKind::ValueNotInRange(value as i64, lower as i64, upper as i64).into(),
+                );
+            }
             let range = upper - lower;
             let offset_bits = range.leading_zeros() as usize;
             let bytes = (value - lower).to_be_bytes();
